@@ -867,10 +867,17 @@ impl<'a> IrEmitter<'a> {
             quote! {}
         };
 
+        let test_attr = if self.test_function.as_deref() == Some(func.name.as_str()) {
+            quote! { #[test] }
+        } else {
+            quote! {}
+        };
+
         let ret_ty_is_unit = matches!(func.return_type, IrType::Unit);
         if is_main || ret_ty_is_unit {
             Ok(quote! {
                 #tokio_main_attr
+                #test_attr
                 #vis #async_kw fn #name(#(#params),*) {
                     #zen_stmt
                     #web_stmt
@@ -881,6 +888,7 @@ impl<'a> IrEmitter<'a> {
             let ret_ty = self.emit_type(&func.return_type);
             Ok(quote! {
                 #tokio_main_attr
+                #test_attr
                 #vis #async_kw fn #name(#(#params),*) -> #ret_ty {
                     #(#body_stmts)*
                 }
